@@ -53,6 +53,7 @@ def dispatch (op : String) (args : List String) : Out :=
   | "xseqi" => runP opXseqi args
   | "optdoc" => runP opOptDoc args
   | "jfile" => runP opJfile args
+  | "jbulk" => runP opJbulk args
   | "implonly" => "na"
   | _ => "bad-op"
 
